@@ -69,6 +69,11 @@ func NewBundleDescriptorFromBundle(b bpv7.Bundle, store *storage.Store) BundleDe
 // Sync this BundleDescriptor to the store.
 func (descriptor BundleDescriptor) Sync() error {
 	if !descriptor.store.KnowsBundle(descriptor.Id.Scrub()) {
+		if descriptor.bndl == nil {
+			// A descriptor created from a store query only holds the ID. If the bundle was removed in the meantime,
+			// e.g., after another goroutine's successful transmission, there is nothing left to be synchronized.
+			return fmt.Errorf("bundle %v is not stored anymore", descriptor.Id)
+		}
 		return descriptor.store.Push(*descriptor.bndl)
 	} else if bi, err := descriptor.store.QueryId(descriptor.Id.Scrub()); err != nil {
 		return err
